@@ -112,8 +112,8 @@ def sequential(ctx, q):
     if not q:
         expect_violation(ctx, "Engine_MC.tla", mc_cfg(ctx, "mc_built_act.cfg", "built", "PoolTiny", 3, [], ["Act_Local"]), "Act_Local")
 
-    core = dict(pool="PoolCore", kinds=["Load", "Render", "Remove", "Clear"], argnames=["A"] if q else ["base", "A"], entries=["doc"])
-    wide = dict(pool="PoolQuick" if q else "PoolThorough", kinds=["Load", "Render", "Remove", "Clear"] if q else sorted(ALLK),
+    core = dict(pool="PoolCore", kinds=["Load", "Render", "Remove", "Clear"], argnames=["A"], entries=["doc"])
+    wide = dict(pool="PoolQuick" if q else "PoolThorough", kinds=["Load", "Render", "Remove", "Clear"],
                 argnames=sorted(NAMES), entries=["doc", "tpl"])
     plans = [("bfs-core", core, 4 if q else 5), ("bfs-wide", wide, 2 if q else 3)]
     lists = []
@@ -122,7 +122,7 @@ def sequential(ctx, q):
     ctx.exhaustive = True
     d = 8 if q else 14
     lists.append(ctx.tlc_gen("Engine_MC.tla", gen_cfg(ctx, "gen_sim.cfg", "PoolThorough", sorted(ALLK), sorted(NAMES), ["doc", "tpl"], d),
-                             "sim", mode="sim", num=15 if q else 400, depth=d + 2))
+                             "sim", mode="sim", num=15 if q else 100, depth=d + 2))
     judge(ctx, ctx.run_exec("engine", merged(ctx, "seq", lists), "seq"), "seq")
     ctx.extra_cov["sequential_bounds"] = {"bfs_core_depth": plans[0][2], "bfs_wide_depth": plans[1][2], "sim_depth": d,
                                           "behaviours": {"bfs_core": len(lists[0]), "bfs_wide": len(lists[1]), "sim": len(lists[2])},
